@@ -7,7 +7,9 @@
 (* successor cell.  This specification                                          *)
 (*  1. judges the probed structure: W must be an equivalence on writable cells *)
 (*     (AliasCoherent), and no cell of the internal memory may share a class    *)
-(*     with a cell of the external space (IntExtDisjoint);                      *)
+(*     with a cell of the external space (IntExtDisjoint); a cell the           *)
+(*     configuration declares read-only must not be writable                    *)
+(*     (RomWindowImmutable);                                                    *)
 (*  2. replays seeded random Load/Store sequences (8/16/24 bit) against the     *)
 (*     MemoryOps semantics instantiated with the probed classes: every loaded   *)
 (*     value must be the little-endian composition of the class bytes           *)
@@ -29,6 +31,9 @@ StructClause(e) ==
   IF \E b \in N : Vis(e, b) # {} /\ b \notin Vis(e, b) THEN <<"AliasCoherent-notreflexive", CHOOSE b \in N : Vis(e, b) # {} /\ b \notin Vis(e, b)>>
   ELSE IF \E b, c \in N : c \in Vis(e, b) /\ Vis(e, c) # Vis(e, b) THEN <<"AliasCoherent-notequivalence", CHOOSE b \in N : \E c \in N : c \in Vis(e, b) /\ Vis(e, c) # Vis(e, b)>>
   ELSE IF \E b \in N : \E c \in Vis(e, b) : {e.kind[b], e.kind[c]} = {"int", "ext"} THEN <<"IntExtDisjoint", CHOOSE b \in N : \E c \in Vis(e, b) : {e.kind[b], e.kind[c]} = {"int", "ext"}>>
+  \* "writes to ROM or read-only windows never change what is read": a cell the CONFIGURATION declares read-only (ROM window,
+  \* ROM overlay, read-only range) may not be writable in the probed structure, whatever backs it
+  ELSE IF \E b \in N : e.ro[b] = 1 /\ Vis(e, b) # {} THEN <<"RomWindowImmutable", CHOOSE b \in N : e.ro[b] = 1 /\ Vis(e, b) # {}>>
   ELSE <<"ok", 0>>
 
 TNext ==
